@@ -47,7 +47,7 @@ type C09Scenario struct {
 }
 
 var c09Kinds = []string{"hello-fuzzed", "hello-bad-keyshare", "random", "firstbyte", "tls-short", "tls-exact", "tls-over", "tls-random-len", "foreign-hello", "cloak-truncated", "cloak-mutated", "cloak-replay",
-	"cloak-unauth-uid", "cloak-bad-method", "http-get", "http-bogus-hidden", "http-long-line", "http-huge"}
+	"cloak-unauth-uid", "cloak-bad-method", "cloak-bad-method-live", "http-get", "http-bogus-hidden", "http-long-line", "http-huge"}
 
 func genC09Peer(g *Gen, kind string) C09Peer {
 	p := C09Peer{Kind: kind, Seed: g.Rng.Uint64(), Arg: g.Int(0, 255), Extra: g.Pick(0, 0, 1, 100, 5000, 40000)}
@@ -88,7 +88,15 @@ func genC09FirstByte(g *Gen) any {
 
 // c09Stream builds the peer's byte stream and the length of its first packet
 // (what the server has to read before it can decide).
-func c09Stream(w *SrvWorld, p C09Peer, extraClients *[][]byte) (s []byte, first int) {
+// c09Genuine: a legitimate client whose first packet is presented before the
+// peers act; hold = it completes the handshake and keeps its connection (a live
+// session) until the run ends.
+type c09Genuine struct {
+	hello []byte
+	hold  bool
+}
+
+func c09Stream(w *SrvWorld, p C09Peer, extraClients *[]c09Genuine) (s []byte, first int) {
 	rng := rand.New(rand.NewPCG(p.Seed, 9))
 	rnd := func(n int) []byte { return randBytes(rng, n) }
 	tlsRec := func(declared, actual int) []byte {
@@ -208,12 +216,18 @@ func c09Stream(w *SrvWorld, p C09Peer, extraClients *[][]byte) (s []byte, first 
 	case "cloak-replay":
 		h := hello(nil)
 		// the genuine packet is presented first by a legitimate client (see runC09), this peer replays it
-		*extraClients = append(*extraClients, h)
+		*extraClients = append(*extraClients, c09Genuine{h, false})
 		s, first = append([]byte(nil), h...), len(h)
 	case "cloak-unauth-uid":
 		s = hello(func(c *ClientParams) { c.UID = randBytes(rng, 16) })
 		first = len(s)
 	case "cloak-bad-method":
+		s = hello(func(c *ClientParams) { c.Method = "nosuchproxy" })
+		first = len(s)
+	case "cloak-bad-method-live":
+		// the same UID and session id as a session that is live right now, but a
+		// proxy method the server does not serve: still relayed, never attached
+		*extraClients = append(*extraClients, c09Genuine{hello(nil), true})
 		s = hello(func(c *ClientParams) { c.Method = "nosuchproxy" })
 		first = len(s)
 	case "http-get":
@@ -261,7 +275,7 @@ func runC09(c *Ctx, scAny any) {
 	defer w.Cleanup()
 	simsync.Go("h:serve", func() { server.Serve(w.Front, w.Sta) })
 	conns := make([]*c09Conn, len(sc.Peers))
-	var genuine [][]byte
+	var genuine []c09Genuine
 	for i, p := range sc.Peers {
 		s, first := c09Stream(w, p, &genuine)
 		conns[i] = &c09Conn{peer: p, stream: s, first: first}
@@ -294,17 +308,29 @@ func runC09(c *Ctx, scAny any) {
 	for _, h := range genuine {
 		h := h
 		simsync.Go("h:genuine", func() {
-			defer func() { pendingGenuine-- }()
+			held := false
+			defer func() {
+				if !held {
+					pendingGenuine--
+				}
+			}()
 			d := &simnet.Dialer{Net: c.Net, LocalIP: "10.0.0.7"}
 			gc, err := d.Dial("tcp", srvAddr)
 			if err != nil {
 				return
 			}
 			dialOrder = append(dialOrder, nil)
-			gc.Write(h)
+			gc.Write(h.hello)
 			b := make([]byte, 2048)
 			gc.SetReadDeadline(time.Now().Add(2 * time.Second))
 			gc.Read(b) // the server's reply (ServerHello...)
+			if h.hold {
+				pendingGenuine--
+				held = true
+				gc.SetReadDeadline(time.Time{})
+				gc.Read(b) // stays until the world ends
+				return
+			}
 			gc.Close()
 		})
 	}
